@@ -57,6 +57,9 @@ def rowwise(rep, name):
 def no_arg_writes(rep, name):
     sp, fn, args, paths = paths_of(rep, name)
     fails = []
+    if getattr(sp, "writes_argument_by_contract", False):
+        # documented in-place function: the obligation is on its call sites (fresh copies), see checks/c08.py chirality_frame
+        return fails
     for i, p in enumerate(paths, 1):
         ok = not p["writes"]
         rep.obligation(f"core.{name}@path{i}.no-in-place-write-to-a-caller-array", {"status": "discharged" if ok else "refuted", "backend": "shim-write-log", "time_s": 0}, fn["function"], "frame")
@@ -71,7 +74,7 @@ def homogeneity(rep, name, known_literals=None):
 
     sp, fn, args, paths = paths_of(rep, name)
     fails = []
-    for grading in ("length", "excitation"):
+    for grading in ("length", "excitation") if sp.pol else ("length",):
         vd = var_degrees(sp, grading)
         if grading == "excitation":
             for k in list(vd):
@@ -107,6 +110,8 @@ def linearity(rep, name):
 
     sp, fn, args, paths = paths_of(rep, name)
     fails = []
+    if not sp.pol:
+        return fails  # no excitation argument
     evars = [t.decl().name() for t in args[sp.pol].blocks[0].flat]
     for i, p in enumerate(paths, 1):
         lc = LinCheck(evars, {})
@@ -114,4 +119,31 @@ def linearity(rep, name):
         nm = f"core.{name}.linear-in-{sp.pol}[path{i}]"
         st = "discharged" if ok else "unknown"
         rep.obligation(nm, {"status": st, "backend": f"linearity-typing({lc.nodes} nodes)", "time_s": 0, "reason": lc.why or ""}, fn["function"])
+    return fails
+
+
+def chirality_contract(rep):
+    """check_chirality meets the contract that the Tetrahedron wrapper's stub assumes: vertices 2 and 3 exchanged exactly on the rows with a
+    negative determinant of (p1-p0, p2-p0, p3-p0), all other entries unchanged — for every row of every batch"""
+    name = "check_chirality"
+    sp, fn, args, paths = paths_of(rep, name)
+    fails = []
+    P = [[args["points"].blocks[0][i, j] for j in range(3)] for i in range(4)]
+    e = [[P[i][j] - P[0][j] for j in range(3)] for i in (1, 2, 3)]
+    # det of the matrix whose COLUMNS are the edge vectors = det of the matrix whose rows are the edge vectors
+    det = (e[0][0] * (e[1][1] * e[2][2] - e[1][2] * e[2][1]) - e[0][1] * (e[1][0] * e[2][2] - e[1][2] * e[2][0]) + e[0][2] * (e[1][0] * e[2][1] - e[1][1] * e[2][0]))
+    for i, p in enumerate(paths, 1):
+        exp = []
+        for r in range(4):
+            for c in range(3):
+                src = {2: 3, 3: 2}.get(r, r)
+                exp.append(z3.If(det < 0, P[src][c], P[r][c]))
+        goal = z3.And(*[o == x for o, x in zip(p["out"], exp)])
+        r_ = solve.discharge(p["pc"] + p["ax"], goal, timeout_ms=30000)
+        nm = f"core.{name}.vertices-2-and-3-exchanged-exactly-on-rows-with-negative-determinant[path{i}]"
+        if r_["status"] == "refuted":
+            # a callee that no longer meets the contract its caller's proof assumes: the caller's obligations are then UNDECIDED (the property may
+            # still hold, e.g. a different treatment of degenerate tetrahedra) — never reported as a violation of the property by itself
+            r_ = dict(r_, status="unknown", reason="check_chirality does not meet the contract assumed by the Tetrahedron wrapper's proof: the wrapper obligations no longer apply")
+        rep.obligation(nm, r_, fn["function"])
     return fails
